@@ -296,8 +296,28 @@ def g4(F, res):
     from heval import local_policy
     good = False
     adds = []
+    # functions of other files through which a custom section can be added are looked through as well, so that an `add`
+    # hidden inside e.g. the producers parser is seen under the condition that routed the section there
+    adders = set()
+    tgt = [i for i, inst in enumerate(F.instances) if norm_path(inst['def']).endswith('ModuleCustomSections::add')]
+    if tgt:
+        rev = {}
+        for e in F.mono_edges:
+            rev.setdefault(e[1], []).append(e[0])
+        seen, work = set(tgt), list(tgt)
+        while work:
+            x = work.pop()
+            for y in rev.get(x, []):
+                if y not in seen:
+                    seen.add(y)
+                    work.append(y)
+        for i in seen:
+            d = norm_path(F.instances[i]['def'])
+            if d != MP and not d.endswith('ModuleCustomSections::add') and '{closure' not in d:
+                adders.add(d)
     try:
-        pws = Evaluator(F, local_policy(F, MP, public_events=True)).run_fn(MP, [sym('wasm'), sym('config')])
+        pws = Evaluator(F, local_policy(F, MP, public_events=True, also_inline=[re.escape(a) + '$' for a in sorted(adders)]),
+                        max_worlds=20000).run_fn(MP, [sym('wasm'), sym('config')])
     except EvalError as e:
         res.error('Module::parse not analysable: %s' % e)
         pws = []
@@ -310,6 +330,11 @@ def g4(F, res):
         adds += ad
         if ad and dbg != [False]:
             mixed = True
+        special = [k for k, v in a.items() if v is True and (" Eq 'producers')" in k or " Eq 'name')" in k)]
+        if ad and special:
+            res.bad('parse/interpreted-section-kept-raw', 'a section that walrus interprets (%s) is also stored among the raw custom '
+                    'sections: it would be emitted regardless of its configuration switch, next to the regenerated one'
+                    % special[0][-30:])
         if dbg == [True] and not ad:
             kept_apart = True
     good = kept_apart and not mixed
